@@ -83,7 +83,7 @@ func HarnessC08Step() {
 	rm := refShape(verifParam("N", 4))
 	v := rm.view()
 	c := &lightClient{stump: rm.stump()}
-	c.held = refPickMask("held", rm.liveSlots())
+	c.held = refPickCombo("held", rm.liveSlots(), verifParam("H", 64))
 	c.canonical(rm, v)
 	prevHeld := c.held
 	prevStump := rm.stump()
